@@ -15,47 +15,81 @@ theorem timeOfText_marshal (ns : Int) (h1 : -9223372036854775808 ≤ ns) (h2 : n
   congr 1
   omega
 
+theorem b64val_b64char_fin : ∀ n : Fin 64, b64val (b64char n.val) = some n.val := by decide +kernel
+theorem b64char_ne61_fin : ∀ n : Fin 64, b64char n.val ≠ 61 := by decide +kernel
+
+theorem b64val_b64char (n : Nat) (h : n < 64) : b64val (b64char n) = some n := b64val_b64char_fin ⟨n, h⟩
+theorem b64char_ne61 (n : Nat) (h : n < 64) : b64char n ≠ 61 := b64char_ne61_fin ⟨n, h⟩
+
+theorem b64dec_four (a b c d : UInt8) (r : Bytes) (hd : d ≠ 61) :
+    b64dec (a :: b :: c :: d :: r) = (do
+      let x ← b64val a; let y ← b64val b; let z ← b64val c; let w ← b64val d
+      let n := x * 262144 + y * 4096 + z * 64 + w
+      let t ← b64dec r
+      pure (UInt8.ofNat (n / 65536 % 256) :: UInt8.ofNat (n / 256 % 256) :: UInt8.ofNat (n % 256) :: t)) := by
+  rw [b64dec]
+  · intro _ h _; exact hd h
+  · intro h _; exact hd h
+
+theorem u8_ofNat_of_eq (a : UInt8) (n : Nat) (h : n = a.toNat) : UInt8.ofNat n = a := by
+  subst h; simp
+
+theorem b64dec_b64enc_aux : ∀ (b : Bytes), b64dec (b64enc b) = some b
+  | [] => by simp [b64enc, b64dec]
+  | [a] => by
+    have ha := UInt8.toNat_lt a
+    simp only [b64enc]
+    rw [b64dec]
+    simp only [b64val_b64char _ (Nat.mod_lt _ (by decide : 64 > 0)), Option.bind_eq_bind, Option.bind_some, Option.pure_def]
+    congr 2
+    apply u8_ofNat_of_eq
+    omega
+  | [a, b] => by
+    have ha := UInt8.toNat_lt a
+    have hb := UInt8.toNat_lt b
+    simp only [b64enc]
+    rw [b64dec]
+    · simp only [b64val_b64char _ (Nat.mod_lt _ (by decide : 64 > 0)), Option.bind_eq_bind, Option.bind_some, Option.pure_def]
+      congr 2
+      · apply u8_ofNat_of_eq; omega
+      · congr 1; apply u8_ofNat_of_eq; omega
+    · intro h; exact b64char_ne61 _ (Nat.mod_lt _ (by decide)) h
+  | a :: b :: c :: r => by
+    have ha := UInt8.toNat_lt a
+    have hb := UInt8.toNat_lt b
+    have hc := UInt8.toNat_lt c
+    simp only [b64enc]
+    rw [b64dec_four _ _ _ _ _ (b64char_ne61 _ (Nat.mod_lt _ (by decide)))]
+    simp only [b64val_b64char _ (Nat.mod_lt _ (by decide : 64 > 0)), Option.bind_eq_bind, Option.bind_some, Option.pure_def, b64dec_b64enc_aux r]
+    congr 2
+    · apply u8_ofNat_of_eq; omega
+    · congr 1
+      · apply u8_ofNat_of_eq; omega
+      · congr 1; apply u8_ofNat_of_eq; omega
+
+/-- base64: decoding what was encoded gives the bytes back, for every byte string -/
+theorem b64dec_b64enc (b : Bytes) : b64dec (b64enc b) = some b := b64dec_b64enc_aux b
+
 theorem rt_supported (ser : Serializer) (jdbc : Int) (v : GoVal) (h : supported ser jdbc v = true) :
     ∃ v', roundtripVal ser jdbc v = .ok v' ∧ undoEq v' v = true := by
-  cases ser <;> cases v <;> simp only [supported] at h
-  all_goals (try (simp at h; done))
-  -- json
-  · exact ⟨.nil, by simp [roundtripVal, marshalVal, unmarshalJson, unmarshalC], rfl⟩
-  · rename_i i
-    simp only [Bool.and_eq_true] at h
-    obtain ⟨hex, hj⟩ := h
-    refine ⟨.int i, ?_, by simp [undoEq]⟩
-    simp only [roundtripVal, marshalVal, unmarshalJson]
-    cases hc : classOf jdbc <;> rw [hc] at hj <;> simp [unmarshalC, hex] at hj ⊢
-    exact hj
-  · rename_i t f
-    cases hc : classOf jdbc <;> rw [hc] at h <;> simp at h
-    · subst h
-      exact ⟨.f32 t, by simp [roundtripVal, marshalVal, unmarshalJson, hc, unmarshalC], by simp [undoEq]⟩
-    · exact ⟨.float t f, by simp [roundtripVal, marshalVal, unmarshalJson, hc, unmarshalC], by simp [undoEq]⟩
-    · exact ⟨.float t f, by simp [roundtripVal, marshalVal, unmarshalJson, hc, unmarshalC], by simp [undoEq]⟩
+  cases ser <;> cases v <;> cases hc : classOf jdbc <;>
+    simp only [supported, hc] at h <;>
+    (try (simp at h; done))
+  all_goals (try (simp_all [roundtripVal, marshalJson, marshalVal, unmarshalJson, unmarshalPb, unmarshalC, passThrough, undoEq, b64dec_b64enc]; done))
   · rename_i s
-    cases hc : classOf jdbc <;> rw [hc] at h <;> simp at h
     refine ⟨.str s, ?_, by simp [undoEq]⟩
-    simp only [roundtripVal, marshalVal, unmarshalJson, hc, unmarshalC]
-    rcases h with hs | hs
-    · cases hb : b64dec s with
-      | none => rfl
-      | some b => rw [hb] at hs; simp at hs
-    · subst hs; simp [b64dec]
+    simp only [roundtripVal, marshalJson, unmarshalJson, hc]
+    cases hb : b64dec s with
+    | none => simp [unmarshalC, hb]
+    | some b => simp [unmarshalC, b64dec_b64enc]
   · rename_i ns
-    cases hc : classOf jdbc <;> rw [hc] at h <;> simp at h
+    simp only [Bool.and_eq_true, decide_eq_true_eq] at h
     refine ⟨.time ns, ?_, by simp [undoEq]⟩
-    simp [roundtripVal, marshalVal, unmarshalJson, hc, unmarshalC, timeOfText_marshal ns h.1 h.2]
-  -- protobuf
-  · exact ⟨.nil, by simp [roundtripVal, marshalVal, unmarshalPb], rfl⟩
-  · rename_i i
-    exact ⟨.int i, by simp [roundtripVal, marshalVal, unmarshalPb, h], by simp [undoEq]⟩
-  · rename_i t f
-    exact ⟨.float t f, by simp [roundtripVal, marshalVal, unmarshalPb], by simp [undoEq]⟩
-  · rename_i s
-    exact ⟨.str s, by simp [roundtripVal, marshalVal, unmarshalPb], by simp [undoEq]⟩
-
+    simp [roundtripVal, marshalJson, marshalVal, unmarshalJson, hc, unmarshalC, timeOfText_marshal ns h.1 h.2]
+  · rename_i ns
+    simp only [Bool.and_eq_true, decide_eq_true_eq] at h
+    refine ⟨.time ns, ?_, by simp [undoEq]⟩
+    simp [roundtripVal, marshalVal, unmarshalPb, hc, unmarshalC, timeOfText_marshal ns h.1 h.2]
 
 /-- lifting a per-element round trip through `mapE` -/
 theorem mapE_ok {α ε : Type} (f : α → Except ε α) (eq : α → α → Bool) (l : List α)
